@@ -56,7 +56,9 @@ pub fn case(idx: u64, seed: u64, p: &Params, o: &mut CaseOut) {
     match kind {
         0 | 1 | 2 => {
             // usize matrix written through IndexMut, tiny value sets (ties)
-            let inf = *r.pick(&[usize::MAX, 9, 100]);
+            // any value may serve as "infinity"; the bit patterns vary on purpose
+            let x = r.next() as usize;
+            let inf = *r.pick(&[usize::MAX, usize::MAX, 9, 100, 255, 256, 257, 65535, 65536, u32::MAX as usize, 1 << 32, 0x0101_0101_0101_0101, 0x00FF_00FF_00FF_00FF, usize::MAX / 2, x | 8]);
             let vals: Vec<usize> = match r.below(4) {
                 0 => vec![0, 1, inf],
                 1 => vec![0, 1, 2, 3],
@@ -110,13 +112,16 @@ pub fn case(idx: u64, seed: u64, p: &Params, o: &mut CaseOut) {
             desc = format!("usize matrix order {n} infinity {inf} rows {rows:?}");
         }
         3 | 4 => {
-            let inf = isize::MAX;
+            let inf = *r.pick(&[isize::MAX, isize::MAX, isize::MAX, 1000, 65535, 257, -1, -65536, isize::MIN + 20]);
             let vals: Vec<isize> = match r.below(3) {
                 0 => vec![-3, 0, 0, 4, inf],
                 1 => vec![-1, 0, 1],
                 _ => vec![-10, -5, 0, 5, 10, inf, inf],
             };
+            let mut vals: Vec<isize> = vals.into_iter().filter(|&v| v <= inf).collect();
+            vals.extend([inf, inf - 1, inf - 7]);
             let mut dm = DistanceMatrix::<isize>::new(n, inf);
+            o.check(dm.dist.len() == n * n && dm.dist.iter().all(|&x| x == inf) && dm.infinity == inf, "new:not-filled-with-infinity", || format!("infinity {inf}: {:?}", dm.dist));
             let mut rows = vec![vec![inf; n]; n];
             for u in 0..n {
                 for v in 0..n {
